@@ -1,5 +1,66 @@
 import XsVerif.Driver.Util
-open Lean XsVerif.Driver
+import XsVerif.Model.History
+open Lean XsVerif.Driver XsVerif.History
 
--- stub: replaced when the model of C10 lands
-def main : IO Unit := XsVerif.Driver.run fun _ => .error "C10 driver not implemented"
+namespace XsVerif.Driver.C10
+
+def natsOf (j : Json) : Except String (List Nat) := do (← j.getArr?).toList.mapM (·.getNat?)
+
+def parseStep (j : Json) : Except String Step := do
+  let a ← j.getArr?
+  if h : a.size ≥ 2 then
+    match ← a[0].getStr? with
+    | "x" => if h4 : a.size = 4 then return .xsiType (← a[1].getNat?) (← a[2].getNat?) (← natsOf a[3]) else throw "x"
+    | "c" => if h3 : a.size = 3 then return .collect (← a[1].getNat?) (← a[2].getNat?) else throw "c"
+    | "m" => return .memoCall (← a[1].getNat?)
+    | "s" => return .scratchUse (← natsOf a[1])
+    | _ => throw "step"
+  else throw "step"
+
+def parseDoc (j : Json) : Except String (List Step) := do (← j.getArr?).toList.mapM parseStep
+
+def parseSch (j : Json) : Except String Sch := do
+  let cx ← natsOf (← j.getObjVal? "complex")
+  let wid ← (← getArr j "widen").toList.mapM fun w => do
+    let a ← w.getArr?
+    if h : a.size = 4 then return ((← a[0].getNat?), (← a[1].getNat?), (← a[2].getNat?), (← natsOf a[3]))
+    else throw "widen"
+  let base ← (← getArr j "base").toList.mapM fun w => do
+    let a ← w.getArr?
+    if h : a.size = 2 then return ((← a[0].getNat?), (← natsOf a[1])) else throw "base"
+  return {
+    complex := fun t => cx.contains t
+    widen := fun c d t => (wid.filter fun (c', d', t', _) => c' == c && d' == d && t' == t).flatMap (·.2.2.2)
+    base := fun c => (base.filter (·.1 == c)).flatMap (·.2)
+    pure := fun k => k }
+
+def pairLt (a b : Nat × Nat) : Bool := a.1 < b.1 || (a.1 == b.1 && a.2 < b.2)
+def pairsJ (l : List (Nat × Nat)) : Json :=
+  Json.arr ((l.eraseDups.toArray.qsort pairLt).map fun (a, b) => Json.arr #[Json.num a, Json.num b])
+
+def obsJ : Obs → Json
+  | .collected b => Json.bool b
+  | .memo v => Json.num v
+  | .scratch s => Json.arr (s.map fun (n : Nat) => Json.num n).toArray
+
+/-- residue after every call of the history, observations of the last document from that residue
+    and from a fresh schema, for the code as it is (`gated`) and for the repaired algorithm -/
+def handle (j : Json) : Except String Json := do
+  let sch ← parseSch (← j.getObjVal? "sch")
+  let hist ← (← getArr j "hist").toList.mapM parseDoc
+  let doc ← parseDoc (← j.getObjVal? "doc")
+  let resJ (r : Res) : Json := Json.mkObj [("xsi", pairsJ r.xsi), ("bound", pairsJ r.bound)]
+  let trace := (List.range (hist.length + 1)).map fun k => resJ (after sch true (hist.take k))
+  let r := after sch true hist
+  let r' := after sch false hist
+  return Json.mkObj [
+    ("trace", Json.arr trace.toArray),
+    ("obs", Json.arr ((call sch true r doc).2.map obsJ).toArray),
+    ("fresh", Json.arr ((call sch true Res.init doc).2.map obsJ).toArray),
+    ("obs_repaired", Json.arr ((call sch false r' doc).2.map obsJ).toArray),
+    ("fresh_repaired", Json.arr ((call sch false Res.init doc).2.map obsJ).toArray),
+    ("after", resJ (call sch true r doc).1)]
+
+end XsVerif.Driver.C10
+
+def main : IO Unit := XsVerif.Driver.run XsVerif.Driver.C10.handle
